@@ -68,6 +68,9 @@ POSITIONS = [
     ("last", "k = 1\n{c}", 6, "any"),
     ("second-line-string", 'x = 0\nk = "a{c}b"\n', 10, "string"),
     ("after-second-line-feed", "x = 0\n\n\nk = a{c}\n", 12, "any"),
+    ("multi-line-string-line-2", 'x = 0\nk = "a\n  b{c}d"\n', 10, "any"),
+    ("multi-line-string-line-3", "k = 'a\n\n{c}'\n", 4, "any"),
+    ("multi-line-comment-line-2", "/* a\n b{c} */ k = 1\n", 0, "comment"),
     ("after-end", "k = 1\nEND\n{c}{c} junk", None, "after-end"),
 ]
 
